@@ -21,6 +21,11 @@ def isAtomicEmit (shape : List AOp) : Bool :=
 def isAtomicReset (shape : List AOp) : Bool :=
   stripYields shape == [.atomicSwap]
 
+/-- A counter update of AppStats: one atomic add (possibly followed by an atomic load of the
+    result), nothing else - the `inc` event of the dump protocol and the `incMatched` step of Emit. -/
+def isAtomicCounterOp (shape : List AOp) : Bool :=
+  stripYields shape == [.atomicAdd] || stripYields shape == [.atomicAdd, .atomicLoad]
+
 /-! ### dump protocol (C20) -/
 
 inductive DEvent where
